@@ -84,7 +84,14 @@ struct Ref {
 }
 impl Ref {
     fn set(&mut self, c: Command) {
-        if c != self.cmd {
+        // "equal to the current one" is decided on the kind and the raw f32 value by the harness
+        // itself, never through the crate's own `PartialEq for Command` (which is code under test)
+        let raw = |c: Command| match c {
+            Command::Position(v) => (1u8, v),
+            Command::Velocity(v) => (2u8, v),
+            Command::Acceleration(v) => (3u8, v),
+        };
+        if raw(c) != raw(self.cmd) {
             if self.err {
                 // the property leaves open what get() returns between an error and the next
                 // present sample when a different command is set in between
